@@ -12,7 +12,7 @@ import itertools
 import common
 from common import Suite
 
-TRUSTED = ["C16: has_side_effect is modelled on expressions and simple statements (suite sideeffect); If / For / def statements are outside that model",
+TRUSTED = ["C16: has_side_effect is modelled on expressions, simple statements, for and if statements (suite sideeffect); def / class statements are outside that model",
            "C16: loop else-clauses and try/except are outside the skeleton fragment (the exporter refuses them); they are covered by the execution oracle only",
            "C16: 'calls nothing user-defined' is read syntactically (Call nodes); attribute access / subscripting / operators may dispatch to user code"]
 ASSUMPTIONS = ["skeleton abstraction: tests are constant-true / constant-false / unknown as judged by the real core.literal_value"]
@@ -439,7 +439,7 @@ def exp_e(n):
         for x in ast.walk(n.func):  # the model's `other` carries no names: a callee hiding some is outside the model
             if isinstance(x, (ast.Yield, ast.YieldFrom, ast.Await)) or (isinstance(x, ast.Lambda) and exp_e(x) == ["other"]):
                 raise Skip()
-        return ["call", exp_e(n.func), [exp_e(a) for a in n.args], [exp_e(k.value) for k in n.keywords]]
+        return ["call", exp_e(n.func), [exp_e(a) for a in n.args], [(["keyarg", exp_e(k.value)] if k.arg == "key" else exp_e(k.value)) for k in n.keywords]]
     if T == "Starred":
         return ["starred", exp_e(n.value)]
     if T == "IfExp":
@@ -456,6 +456,10 @@ def exp_e(n):
         if a.posonlyargs or a.args or a.kwonlyargs or a.vararg or a.kwarg:
             return ["other"]  # ast.arg nodes are not handled by the real function: it answers True
         return ["lambda", [exp_e(x) for x in list(a.kw_defaults) + list(a.defaults) if x is not None], exp_e(n.body)]
+    if T == "For":
+        return ["for", exp_e(n.target), exp_e(n.iter), [exp_e(x) for x in n.body], [exp_e(x) for x in n.orelse]]
+    if T == "If":
+        return ["ifstmt", exp_e(n.test), [exp_e(x) for x in n.body], [exp_e(x) for x in n.orelse]]
     if T == "JoinedStr":
         return ["fstring", [exp_e(v) for v in n.values]]
     if T == "FormattedValue":
@@ -465,7 +469,11 @@ def exp_e(n):
 
 SIDE_EXPRS = POSITIONS + ["''.join(join(x))", "', '.join(str(v) for v in xs)", "len(x) + abs(y)", "[v for v in xs if v]", "{k: v for k, v in pairs}", "a.b.c", "a.b(c)", "_ = f(x)", "_ = 3",
                           "x = 3", "a[0] = 1", "_[0] = 1", "a.b = 2", "(lambda: 1)()", "(lambda q: q)(1)", "lambda d=g(1): d", "f'{x!r:>{w}}'", "x if y else z", "(y := 5)", "print(x)", "sorted(xs)",
-                          "[*xs, *ys]", "{**a}", "a[1:2:3]", "a[g(1):]", "not x", "x < y < z", "x and y or z", "str(x).upper()", "x.upper()", "' '.strip().upper()", "max(len(a), len(b))"]
+                          "[*xs, *ys]", "{**a}", "a[1:2:3]", "a[g(1):]", "not x", "x < y < z", "x and y or z", "str(x).upper()", "x.upper()", "' '.strip().upper()", "max(len(a), len(b))",
+                          "sorted(xs, key=g)", "sorted(xs, key=len)", "max(xs, key=lambda v: v)", "map(g, xs)", "map(str, xs)", "filter(None, xs)", "filter(g, xs)", "list(map(len, xs))",
+                          "for v in xs:\n    pass\nelse:\n    print(v)", "for _ in [1, 2]:\n    pass\nelse:\n    w = 1", "for _ in [1, 2]:\n    pass", "for v in g(x):\n    pass",
+                          "for v in xs:\n    if v:\n        w = v", "for a.b in xs:\n    pass", "if x:\n    pass\nelse:\n    y = 1", "if f(x):\n    pass", "if x:\n    pass\nelif y:\n    _ = 1\nelse:\n    pass",
+                          "for v in xs:\n    pass\nelse:\n    for w in ys:\n        pass\n    else:\n        print(1)"]
 
 
 def sideeffect_suite(ctx):
@@ -512,7 +520,7 @@ def sideeffect_suite(ctx):
         if isinstance(n, (ast.Call, ast.ListComp, ast.SetComp, ast.GeneratorExp, ast.DictComp, ast.JoinedStr, ast.Subscript, ast.Lambda, ast.IfExp)):
             s.nt([ast.dump(n)[:300], len(w)])
     s.samples.append({"suite": "sideeffect", "expr": "[print(x) for x in (1, 2)]", "whitelist": [], "has_side_effect": True})
-    s.note = ("every expression / simple-statement node of 66 hand-written expressions (a call in every position, stores, lambdas, f-strings, slices) and of corpus programs x 3 whitelists "
+    s.note = ("every expression / simple-statement / for / if node of 84 hand-written snippets (a call in every position, stores, lambdas, f-strings, slices, callables handed to builtins, for-else and if-else statements) and of corpus programs x 3 whitelists "
               "(empty, constants.SAFE_CALLABLES, a small one): core.has_side_effect vs the model; non-trivial = calls, comprehensions, f-strings, subscripts, lambdas, conditional expressions")
     return s
 
